@@ -1144,3 +1144,13 @@ impl<K: Send, V: Send + Sync, H> Cache<K, V, H> {
     }
   }
 }
+
+#[cfg(excsn_fibre_verif)]
+impl<K: Send, V: Send + Sync, H> Cache<K, V, H> {
+  /// Verification only: number of loads (misses and stale refreshes) that are still in
+  /// flight. A background refresh registers itself here before its task is spawned and
+  /// leaves after its result is in the map, so 0 means the loader is quiescent.
+  pub fn verif_pending_loads(&self) -> usize {
+    self.shared.pending_loads.iter().map(|m| m.lock().len()).sum()
+  }
+}
